@@ -218,6 +218,18 @@ impl Obs {
             self.fails.push((serde_json::to_value(case).unwrap_or(Value::Null), fail));
         }
     }
+    /// A failure with a known-finding key: if the key is listed as open it is counted and the
+    /// property function carries on with its remaining clauses; otherwise it is returned as an error.
+    pub fn known_or_fail(&mut self, fail: Fail) -> PropResult {
+        if self.is_open(&fail.key) {
+            if !self.frozen {
+                *self.known_hits.entry(fail.key.clone().unwrap()).or_insert(0) += 1;
+            }
+            Ok(())
+        } else {
+            Err(fail)
+        }
+    }
     pub fn has_failures(&self) -> bool {
         self.fail_count > 0
     }
